@@ -32,7 +32,8 @@ Fetch(rules, fallback, f) ==
 
 Ext(lang) == lang[Len(lang)]          \* "cpp:h" -> h ; "cpp" -> cpp   (lang given as components split on ':')
 
-ModPool == {<<"m">>, <<"x", "m">>, <<"x", "n">>, <<"y", "m">>, <<"x", "y", "m">>}
+\* <<"x", "x", "m">>: the text of a prefix condition occurs again further down the path (only the leading occurrence is a prefix)
+ModPool == {<<"m">>, <<"x", "m">>, <<"x", "n">>, <<"y", "m">>, <<"x", "y", "m">>, <<"x", "x", "m">>}
 RulePool == { [kind |-> "glob", cond |-> <<"x">>, dir |-> <<"o1">>],
               [kind |-> "prefix", cond |-> <<"x">>, dir |-> <<"o2">>],
               [kind |-> "prefix", cond |-> <<"x", "y">>, dir |-> <<"o1">>],
